@@ -219,7 +219,7 @@ MUTANTS = [
      "edits": [(D, "        let automata = NFA::choice(matchers.iter().enumerate().map(|(index, matcher)| {", "        let automata = NFA::choice(matchers.iter().enumerate().skip(1).map(|(index, matcher)| {")]},
     {"id": "C15-unfoldable-predicate", "prop": "C15", "expect": "GRAMMARS/decoder::BracketedPasteMatcher::matcher/unfoldable",
      "edits": [(D, "            NFA::from(\"\\x1b[200~\"),\n            NFA::predicate(|b| b != b'\\x1b').many(),",
-                "            NFA::from(\"\\x1b[200~\"),\n            NFA::predicate(|b| b.count_ones() != 9 && b != b'\\x1b').many(),")]},
+                "            NFA::from(\"\\x1b[200~\"),\n            NFA::predicate(|b| b.reverse_bits() != 0xd8 && b != b'\\x1b').many(),")]},   # (count_ones & co. are folded by sa.grammar since UTF8-LANG; reverse_bits is not)
     # ---------------- R4: compile ----------------
     {"id": "C15-density-assert-removed", "prop": "C15", "expect": "R4-DENSITY/automata::NFA::compile/no-density-assert",
      "edits": [(A, "                assert_eq!(index, state.0);", "                let _ = (index, state.0);")]},
@@ -257,4 +257,29 @@ MUTANTS = [
     {"id": "C15-benign-sequence-rename-locals", "prop": "C15", "benign": True,
      "edits": [(A, "            let (_, from) = ends[index - 1];\n            let (to, _) = ends[index];\n            if let Some(from_state) = states.get_mut(&from) {\n                from_state.epsilons.insert(to);",
                 "            let (_, prev_stop) = ends[index - 1];\n            let (next_start, _) = ends[index];\n            if let Some(prev) = states.get_mut(&prev_stop) {\n                prev.epsilons.insert(next_start);")]},
+    # ---- R4-TABLE: geometry of the flattened transition table (row width == stride == 256, column j == symbol j)
+    # the seed C15-C: rows and stride both 255, consistent with each other, byte 0xff reads the next state's row
+    {"id": "C15-table-rows-255-consistent", "prop": "C15", "expect": "R4-TABLE/automata::NFA::compile/row-width",
+     "edits": [(A, "let lang_size = Symbol::MAX as usize + 1;", "let lang_size = Symbol::MAX as usize;"),
+               (A, "(0..=Symbol::MAX).map(move |symbol| edges.get(&symbol).copied())", "(0..lang_size).map(move |symbol| edges.get(&(symbol as Symbol)).copied())")]},
+    {"id": "C15-table-stride-255", "prop": "C15", "expect": "R4-TABLE/automata::NFA::compile/stride",
+     "edits": [(A, "let lang_size = Symbol::MAX as usize + 1;", "let lang_size = Symbol::MAX as usize;")]},
+    {"id": "C15-table-row-exclusive-range", "prop": "C15", "expect": "R4-TABLE/automata::NFA::compile/row-width",
+     "edits": [(A, "(0..=Symbol::MAX).map(move |symbol| edges.get(&symbol).copied())", "(0..Symbol::MAX).map(move |symbol| edges.get(&symbol).copied())")]},
+    {"id": "C15-table-row-starts-at-1", "prop": "C15", "expect": "R4-TABLE/automata::NFA::compile/row-width",
+     "edits": [(A, "(0..=Symbol::MAX).map(move |symbol| edges.get(&symbol).copied())", "(1..=Symbol::MAX).map(move |symbol| edges.get(&symbol).copied())")]},
+    {"id": "C15-table-column-key-altered", "prop": "C15", "expect": "R4-TABLE/automata::NFA::compile/column-key",
+     "edits": [(A, "(0..=Symbol::MAX).map(move |symbol| edges.get(&symbol).copied())", "(0..=Symbol::MAX).map(move |symbol| edges.get(&(symbol ^ 0x20)).copied())")]},
+    {"id": "C15-table-transition-stride-off", "prop": "C15", "expect": "R4-TABLE/ANCHOR/transition-index",
+     "edits": [(A, "self.states[self.lang_size * state.0 + symbol as usize]", "self.states[(self.lang_size - 1) * state.0 + symbol as usize]")]},
+    {"id": "C15-benign-table-row-literal-range", "prop": "C15", "benign": True,
+     "edits": [(A, "(0..=Symbol::MAX).map(move |symbol| edges.get(&symbol).copied())", "(0..=255u8).map(move |symbol| edges.get(&symbol).copied())")]},
+    {"id": "C15-benign-table-stride-literal", "prop": "C15", "benign": True,
+     "edits": [(A, "let lang_size = Symbol::MAX as usize + 1;", "let lang_size = 256;")]},
+    {"id": "C15-benign-table-row-from-lang-size", "prop": "C15", "benign": True,
+     "edits": [(A, "(0..=Symbol::MAX).map(move |symbol| edges.get(&symbol).copied())", "(0..lang_size).map(move |symbol| edges.get(&(symbol as Symbol)).copied())")]},
+    {"id": "C15-benign-table-row-min-max", "prop": "C15", "benign": True,
+     "edits": [(A, "(0..=Symbol::MAX).map(move |symbol| edges.get(&symbol).copied())", "(Symbol::MIN..=Symbol::MAX).map(move |sym| edges.get(&sym).copied())")]},
+    {"id": "C15-benign-table-transition-commuted", "prop": "C15", "benign": True,
+     "edits": [(A, "self.states[self.lang_size * state.0 + symbol as usize]", "self.states[symbol as usize + state.0 * self.lang_size]")]},
 ]
